@@ -17,7 +17,7 @@ def readLines (pick : Nat → Op) : Nat → Sess → List Bytes
 theorem specStep_line (a : AState) (op : Op) (h : isLineOp op) :
     (specStep a op).1 = ⟨(specGetLine a.abs).1, (specGetLine a.abs).2.1, (specGetLine a.abs).2.2.cur⟩ ∧
     (specStep a op).2.src = a.src ∧ (specStep a op).2.cur = (specGetLine a.abs).2.2.cur := by
-  rcases h with h | h | h <;> rw [h] <;> exact ⟨rfl, rfl, rfl⟩
+  rcases h with h | h | h <;> rw [h] <;> exact ⟨rfl, aBrk_src a a.cur, rfl⟩
 
 theorem valid_line (P : Nat) (a : AState) (op : Op) (h : isLineOp op) : Valid P a op := by
   rcases h with h | h | h <;> rw [h] <;> trivial
